@@ -12,6 +12,11 @@ def micro? (j : Json) : Option Micro :=
   | .arr #[.str "loc"] => some .loc
   | .arr #[.str "rdg"] => some .rdg
   | .arr #[.str "delAll"] => some .delAll
+  | .arr #[.str "reinit"] => some .reinit
+  | .arr #[.str "ld", c] => do some (.ld (← nat? c))
+  | .arr #[.str "st", c, k] => do some (.st (← nat? c) (← nat? k))
+  | .arr #[.str "ins", c, g, off] => do some (.ins (← nat? c) (← nat? g) (← nat? off))
+  | .arr #[.str "rmOne", g] => do some (.rmOne (← nat? g))
   | .arr #[.str "ctor", .bool w] => some (.ctor w)
   | .arr #[.str "read", c] => do some (.read (← nat? c))
   | .arr #[.str "del", g] => do some (.del (← nat? g))
